@@ -126,6 +126,12 @@ fn bump_probes<C: Clone + Serialize>(ctx: &mut WorkerCtx<C>, plan: &Plan, out: &
     if plan.net.vectored {
         ctx.counters.bump("transport_with_native_vectored_writes");
     }
+    if plan.net.s2c_latency_ms >= 1000 {
+        ctx.counters.bump("slow_link_plans");
+    }
+    if plan.replies.values().any(|s| s.fields >= 513) {
+        ctx.counters.bump("big_listing_reply_plans");
+    }
     if plan
         .callers
         .iter()
@@ -338,6 +344,13 @@ fn fault_free_plan(rng: &mut Rng, w: &Workload, max_events: usize, unknown: bool
     if long_quiet {
         gen::add_long_quiet(rng, &mut plan, &mut ids);
     }
+    match rng.below(80) {
+        0 | 1 => gen::slow_link(rng, &mut plan),
+        2 | 3 => {
+            gen::add_big_listing(rng, &mut plan);
+        }
+        _ => {}
+    }
     if long_quiet || rng.chance(1, 3) {
         gen::retarget_changes(rng, &mut plan);
     }
@@ -494,6 +507,13 @@ fn gen_c04(rng: &mut Rng) -> Plan {
     let long_quiet = rng.chance(1, 40);
     if long_quiet {
         gen::add_long_quiet(rng, &mut plan, &mut ids);
+    }
+    match rng.below(80) {
+        0 | 1 => gen::slow_link(rng, &mut plan),
+        2 => {
+            gen::add_big_listing(rng, &mut plan);
+        }
+        _ => {}
     }
     if long_quiet || rng.chance(1, 2) {
         gen::retarget_changes(rng, &mut plan);
